@@ -40,7 +40,7 @@ PROPS['C15'] = dict(
                   thorough=[dict(module='TailBitmapInd', cinit='CInitT', runs=[('Init', 'IndInv', 0), ('IndInit', 'IndInv', 1), ('IndInit', 'Property', 0)],
                                  refute=[('IndInit', 'BadNeverMoves', 1), ('IndInit', 'BadNoBits', 1)])]),
     gen=dict(quick=[sim('Gen_TailBitmap', 'Gen_TailBitmap_q.cfg', 30, 30, 'tb', shards=8)],
-             thorough=[sim('Gen_TailBitmap', 'Gen_TailBitmap.cfg', 1500, 40, 'tb', shards=16)]),
+             thorough=[sim('Gen_TailBitmap', 'Gen_TailBitmap.cfg', 250, 40, 'tb', shards=16)]),
     rule='a case is one TailBitmap history (New, then Set/Compact/Get/Get1 calls): structured fills of 1-5 words in six orders, '
          'layout histories (8-30 words full/partial/empty set in a seeded word order, word 0 completed last so that one Compact walks a long run, then growth by several words and the holes closed one by one), '
          'TLC-simulated histories of macro-steps (Gen_TailBitmap: fill a word, single bits around offset/end/far beyond, close a hole, Compact), seeded random histories of 60-360 calls, '
